@@ -30,6 +30,23 @@ type c13Geom struct {
 	RLen    int64  `json:"rlen"`             // bytes the reader supplies (write)
 	Chunk   string `json:"chunk,omitempty"`  // odd | eofwith | one | full
 	Class   string `json:"class"`
+	Idx     int    `json:"idx,omitempty"`  // GPT entry number of the partition under test (0 = 1)
+	Idx2    int    `json:"idx2,omitempty"` // GPT entry number of the second partition (0 = 2)
+	Rev     bool   `json:"rev,omitempty"`  // the second partition comes first in the table value's slice
+}
+
+func (g c13Geom) idx() int {
+	if g.Idx > 0 && g.Kind == "gpt" {
+		return g.Idx
+	}
+	return 1
+}
+
+func (g c13Geom) idx2() int {
+	if g.Idx2 > 0 && g.Kind == "gpt" {
+		return g.Idx2
+	}
+	return 2
 }
 
 // prfStream is an io.Reader delivering PRF bytes in configurable pieces.
@@ -134,6 +151,18 @@ func c13Cases(seed int64, tier string) []core.Case {
 	r := gen.New(seed)
 	var cs []core.Case
 	add := func(g c13Geom) {
+		// GPT entries need not be numbered 1..n nor listed in order: the partition under test sits in entry
+		// 1, 3, 7 or 128 (entries below it unused), the second one before or behind it
+		if g.Kind == "gpt" {
+			switch len(cs) % 4 {
+			case 1:
+				g.Idx, g.Idx2 = 3, 9
+			case 2:
+				g.Idx, g.Idx2, g.Rev = 7, 2, true
+			case 3:
+				g.Idx, g.Idx2 = 128, 5
+			}
+		}
 		cs = append(cs, core.MkCase(fmt.Sprintf("%s-%d", g.Op, len(cs)), "stream-"+g.Kind, r.Int63(), g))
 	}
 	n := 12
@@ -247,9 +276,12 @@ func c13Disk(st *monstore.Store, g c13Geom) (*disk.Disk, error) {
 	w, _ := file.New(st, false).Writable()
 	if g.Kind == "gpt" {
 		t := &gpt.Table{LogicalSectorSize: g.LSS, PhysicalSectorSize: g.PSS, ProtectiveMBR: true}
-		t.Partitions = append(t.Partitions, &gpt.Partition{Index: 1, Start: g.Start, End: g.Start + g.Sectors - 1, Type: gpt.LinuxFilesystem})
+		t.Partitions = append(t.Partitions, &gpt.Partition{Index: g.idx(), Start: g.Start, End: g.Start + g.Sectors - 1, Type: gpt.LinuxFilesystem})
 		if g.Sect2 > 0 {
-			t.Partitions = append(t.Partitions, &gpt.Partition{Index: 2, Start: g.Start2, End: g.Start2 + g.Sect2 - 1, Type: gpt.LinuxFilesystem})
+			t.Partitions = append(t.Partitions, &gpt.Partition{Index: g.idx2(), Start: g.Start2, End: g.Start2 + g.Sect2 - 1, Type: gpt.LinuxFilesystem})
+		}
+		if g.Rev && len(t.Partitions) == 2 {
+			t.Partitions[0], t.Partitions[1] = t.Partitions[1], t.Partitions[0]
 		}
 		if err := t.Write(w, g.DevSize); err != nil {
 			return nil, err
@@ -303,6 +335,9 @@ func c13Run(c core.Case, env *core.Env) core.Result {
 		physClass = "size-not-multiple-of-physical-sector"
 	}
 	res.Mark(g.Class)
+	if g.Kind == "gpt" && g.idx() != 1 {
+		res.Mark("partition under test in a GPT entry other than the first, entries below it unused")
+	}
 	res.Mark(fmt.Sprintf("%s lss=%d pss=%d", g.Kind, g.LSS, g.PSS))
 	res.Mark("op " + g.Op)
 	switch g.Op {
@@ -316,7 +351,7 @@ func c13Run(c core.Case, env *core.Env) core.Result {
 		}
 		var n int64
 		var werr error
-		if pi := core.Guard(func() { n, werr = d.WritePartitionContents(1, rd) }); pi != nil {
+		if pi := core.Guard(func() { n, werr = d.WritePartitionContents(g.idx(), rd) }); pi != nil {
 			fail("write-panic", pi.Top+":"+pi.Class, "WritePartitionContents panicked: %s", pi.Msg)
 			return res
 		}
@@ -384,7 +419,7 @@ func c13Run(c core.Case, env *core.Env) core.Result {
 		w := &cmpWriter{st: st, base: pStart}
 		var n int64
 		var rerr error
-		if pi := core.Guard(func() { n, rerr = d.ReadPartitionContents(1, w) }); pi != nil {
+		if pi := core.Guard(func() { n, rerr = d.ReadPartitionContents(g.idx(), w) }); pi != nil {
 			fail("read-panic", pi.Top+":"+pi.Class, "ReadPartitionContents panicked: %s", pi.Msg)
 			return res
 		}
@@ -420,7 +455,7 @@ func c13Run(c core.Case, env *core.Env) core.Result {
 		}
 		st.SetAllowed(monstore.Range{Off: tStart, End: tStart + tSize})
 		var cerr error
-		if pi := core.Guard(func() { cerr = fsync.CopyPartitionRaw(d, 1, 2) }); pi != nil {
+		if pi := core.Guard(func() { cerr = fsync.CopyPartitionRaw(d, g.idx(), g.idx2()) }); pi != nil {
 			fail("copy-panic", pi.Top+":"+pi.Class, "CopyPartitionRaw panicked: %s", pi.Msg)
 			return res
 		}
